@@ -141,7 +141,7 @@ def body(prop, cfg, tier, seed, replay, scratch, violations, known_hits, notes, 
             for l in open(lines, errors="replace"):
                 if l.startswith("#died"):
                     died = l.strip()
-            kind = "timeout" if rc == -999 else ("sanitizer" if rc in (86, 87, 88) or "Sanitizer" in err or "runtime error" in err else "crash")
+            kind = "timeout" if rc == -999 else "hang" if rc == 99 else ("sanitizer" if rc in (86, 87, 88) or "Sanitizer" in err or "runtime error" in err else "crash")
             summ = ""
             m = re.search(r"(ERROR: \w+Sanitizer: [^\n]*|runtime error: [^\n]*|SUMMARY: [^\n]*)", err)
             if m:
